@@ -374,6 +374,47 @@ impl Ctx {
         }
     }
 
+    /// Complete enumeration that does NOT stop at the first failure: every index is evaluated and the
+    /// lowest failing index of every distinct signature is reported (grids with several root causes).
+    pub fn enumerate_all<C, G, F>(&self, label: &str, threads: usize, n: u64, make: G, check: F)
+    where
+        C: Serialize + Send,
+        G: Fn(u64) -> C + Sync,
+        F: Fn(&C) -> Outcome + Sync,
+    {
+        let next = AtomicU64::new(0);
+        let fails: Mutex<BTreeMap<String, (u64, Viol)>> = Mutex::new(BTreeMap::new());
+        let chunk = (n / (threads as u64 * 64)).clamp(1, 4096);
+        std::thread::scope(|sc| {
+            for _ in 0..threads {
+                sc.spawn(|| loop {
+                    let a = next.fetch_add(chunk, Ordering::Relaxed);
+                    if a >= n {
+                        break;
+                    }
+                    for i in a..(a + chunk).min(n) {
+                        let case = make(i);
+                        let out = guarded(&check, &case);
+                        for v in self.record(label, &case, &out) {
+                            let mut ff = fails.lock().unwrap();
+                            match ff.get(&v.sig) {
+                                Some((j, _)) if *j <= i => {}
+                                _ => {
+                                    ff.insert(v.sig.clone(), (i, v.clone()));
+                                }
+                            }
+                        }
+                    }
+                });
+            }
+        });
+        for (_sig, (i, v)) in fails.into_inner().unwrap() {
+            let case = make(i);
+            let mut f = self.failures.lock().unwrap();
+            f.push(Failure { label: label.to_string(), sig: v.sig.clone(), detail: v.detail.clone(), case: serde_json::to_value(&case).unwrap_or(Value::Null) });
+        }
+    }
+
     /// Writes evidence, prints KNOWN-FINDING / VIOLATION lines and returns the exit code.
     pub fn finish(&self) -> i32 {
         let wall = self.start.elapsed().as_secs_f64();
